@@ -1,4 +1,5 @@
 """C06 Conserved quantum numbers are never violated by any operation."""
+from vk.symx.harness import guarded
 import numpy as np
 
 from vk.rtc.harness import run_cases
@@ -110,8 +111,8 @@ def check(run):
     # the label clauses decided exactly by Engine S for all tensor values: arithmetic (sum, difference, operator images incl. charged operators, adjoint)
     # and gauge moves / lossless compression in kernel-stub mode
     from props import C03_sym, C04_kernel
-    C03_sym.prove(run)
-    C04_kernel.prove(run)
+    guarded(run, C03_sym.prove)
+    guarded(run, C04_kernel.prove)
     nseeds = 2 if run.tier == "quick" else 8
     length = 30 if run.tier == "quick" else 60
     cases = [(name, n, run.seed * 1000 + s, length, run.tier) for name in ("spinqn", "holstein", "spin2qn") for n in (2, 3, 4) for s in range(nseeds)]
